@@ -160,6 +160,19 @@ template <class Map, class Set, class Val, class Key> struct FlatOps
             ret = std::to_string(fs.count(Key(a[1])));
         else if (op == "sclear")
             fs.clear();
+        else if (op == "msize")
+            ret = std::to_string(fm.size());
+        else if (op == "ssize")
+            ret = std::to_string(fs.size());
+        else if (op == "siter")
+        {
+            // for (it = begin(); it != end(); ++it)
+            ret = "";
+            for (auto it = fs.begin(); it != fs.end(); ++it)
+                ret += (ret.empty() ? "" : ",") + std::to_string(unbox(*it));
+            if (ret.empty())
+                ret = "-";
+        }
         else
             return "bad-op";
         return ret + dump();
